@@ -13,7 +13,7 @@ DICT_ASSUME = [
     "IteratorDictStringPlain with the calling conventions of Build.cpp / the tests",
     "reference model = the sorted std::vector<std::string> and brute-force prefix / substring / rank functions",
     "ASan (recover mode) + UBSan array-bounds/null build of /repo's working tree with -DLIBCSD_VERIF",
-    "members/IDs examined per sweep are capped at 600 (quick) / 2000 (thorough) per object state for n above the cap",
+    "members/IDs examined per sweep are capped at 300 (quick) / 1500 (thorough) per object state for n above the cap",
 ]
 
 
@@ -48,17 +48,32 @@ def dict_stages(kinds, quick_small, quick_large, binary="dict_rc", floors=None, 
     return f
 
 
+NOT_CLAIMED = {}
+
+COMMON_NOTE = ("Trusted base: the harness decoder/model (harness/dict_*.h, dict_case.cpp), clang 14 ASan/UBSan, rapidcheck. "
+               "Assumes the calling conventions of Build.cpp/tests. Inputs above ~3000 strings (12000 thorough) / ~250 KB are not "
+               "explored; no absence proof. Sub-domains excluded because of recorded defects are listed in KNOWN_FINDINGS.txt "
+               "(decoding-table kinds: HTFC n mod bucket == 1 and runs >=14, HASHHF/HASHUFFDAC runs >=14, HHTFC partial last bucket, "
+               "RPHTFC entirely) and counted in the evidence as excluded_known / inconclusive.")
+
+
+def _meta(text, technique):
+    return {"level_text": text, "level_note": COMMON_NOTE, "technique": technique, "family": "dict"}
+
+
 SPECS = {
     "C01": {
+        **_meta('Generated-input search: thousands of (kind, parameter, string-set) cases per run, every member and ID of each case checked in both directions against the reference set on the built and both loaded objects; failures shrink to a replay file. Exploration is the right level: the property is universally quantified over inputs and 13 implementations, no finite model exists.', 'property-based testing (rapidcheck), reference-model round trip + bijection, ASan'),
         "stages": dict_stages(ALL, 60, 12),
         "rule": "case = (kind, legal parameters, string set S, object state) decoded from rapidcheck bytes; for every "
-                "state (fresh, generic-loaded, own-loaded) all members (sample of 600 above that) are located, extracted "
+                "state (fresh, generic-loaded, own-loaded) all members (sample of 300 above that) are located, extracted "
                 "and compared with the reference set, and all IDs are extracted, looked up in S and located back "
                 "(bijection). non-trivial = n>=2 and >=2 buckets (front coding) / n>=2 (others), conclusive and not "
                 "tainted; distinct = 64-bit hash of (kind, params, S, op bytes)",
         "assumptions": DICT_ASSUME,
     },
     "C02": {
+        **_meta('Generated absent queries of every class the statement names (prefixes, extensions, neighbours, out-of-alphabet, out-of-range) and bad IDs up to SIZE_MAX against every kind/state; oracle locate==0 / NULL,len 0 and no sanitizer report inside the call.', 'property-based testing (rapidcheck), negative oracle from the reference set, ASan in-call reports'),
         "stages": dict_stages(ALL, 50, 10, floors={"absent:proper_prefix": 50, "absent:extension": 50,
                                                     "absent:out_of_alphabet": 50, "absent:below_first": 30,
                                                     "absent:above_last": 30, "absent:longer_than_all": 50}),
@@ -70,6 +85,7 @@ SPECS = {
         "assumptions": DICT_ASSUME + ["query buffers are exactly strLen+1 bytes"],
     },
     "C03": {
+        **_meta('Generated sets with unsigned-order traps (bytes >=0x80, long shared prefixes); ID order and rank operations compared with the sorted reference for all ranks (sampled above 300).', 'property-based testing (rapidcheck), sorted reference model'),
         "stages": dict_stages(ALL, 50, 10),
         "rule": "case as C01; ordered kinds (PFC RPFC HTFC HHTFC RPHTFC RPDAC FMINDEX): extract(i)==S[i-1] and "
                 "locate(S[i-1])==i in unsigned byte order; every kind: extractRank(k) / extract(locateRank(k)) equal "
@@ -77,6 +93,7 @@ SPECS = {
         "assumptions": DICT_ASSUME,
     },
     "C04": {
+        **_meta('Generated prefix patterns with measured coverage of bucket-boundary shapes; exact ID range / limits / strings compared with a brute-force filter of the reference set.', 'property-based testing (rapidcheck), brute-force reference filter'),
         "stages": dict_stages(PREFIX, 50, 10, floors={"prefix:2buckets": 20, "prefix:3+buckets": 20,
                                                        "prefix:ends_at_boundary": 20, "prefix:none_inside": 20,
                                                        "prefix:whole_dictionary": 5}),
@@ -87,6 +104,7 @@ SPECS = {
         "assumptions": DICT_ASSUME,
     },
     "C05": {
+        **_meta('Generated substring patterns (repeated, absent, single byte ...) on FMINDEX (both bitmap kinds, sampling steps) and XBW; ID set and strings compared with memmem over the reference set.', 'property-based testing (rapidcheck), brute-force reference filter'),
         "stages": dict_stages(SUBSTR, 120, 20, floors={"substr:repeated_in_member": 30, "substr:absent": 30}),
         "rule": "case as C01 on FMINDEX (BWT sampling >=1; sampling 0 cases only check nothing) and XBW; patterns: "
                 "single bytes, inner substrings, suffixes, prefixes, whole members, absent, repeated; oracle = memmem "
@@ -94,6 +112,7 @@ SPECS = {
         "assumptions": DICT_ASSUME,
     },
     "C13": {
+        **_meta('Every iterator the API returns is drained under a canary/strlen/ASan protocol check and compared with extract(k) and the reference order; scans are steered to start inside buckets.', 'property-based testing (rapidcheck), iterator protocol oracle + reference model'),
         "stages": dict_stages(ALL, 50, 10),
         "rule": "case as C01; extractTable drained (count, order, k-th == extract(k), lengths, hasNext protocol); "
                 "extractPrefix/locatePrefix/extractSubstr/locateSubstr iterators drained with canary lengths and a "
@@ -102,12 +121,14 @@ SPECS = {
         "assumptions": DICT_ASSUME,
     },
     "C15": {
+        **_meta('numElements/maxLength compared with the reference set on built and reloaded objects of every kind.', 'property-based testing (rapidcheck), reference model'),
         "stages": dict_stages(ALL, 60, 10),
         "rule": "case as C01; numElements()==|S| and L<=maxLength()<=L+1 on the fresh and both loaded objects. "
                 "non-trivial = n>=2 and the longest member is not the first",
         "assumptions": DICT_ASSUME,
     },
     "C16": {
+        **_meta('Every unsupported (kind, operation) pair is called with generated arguments, result must be null/0, and the object is re-queried afterwards.', 'property-based testing (rapidcheck), fail-safe oracle + follow-up round trip'),
         "stages": dict_stages(ALL, 50, 8),
         "rule": "case as C01; every operation the kind does not provide is called with well-formed arguments "
                 "(result must be NULL / 0 / empty) and followed by a locate+extract of a member on the same object. "
